@@ -1644,6 +1644,231 @@ fn section_c4(run: &Run, seed: u64, n_programs: usize) {
 	}
 }
 
+/// A backend whose next `append` or `rewind` can be made to fail (before anything is changed), as the file backend
+/// does on an I/O error; everything else goes to the VecBackend it wraps.
+struct FaultCtl {
+	/// number of successful appends left before one append fails (None: never)
+	fail_append_after: std::cell::Cell<Option<u32>>,
+	fail_next_rewind: std::cell::Cell<bool>,
+}
+
+struct FaultyBackend {
+	inner: VecBackend<TestElem>,
+	ctl: std::rc::Rc<FaultCtl>,
+}
+
+impl pmmr::Backend<TestElem> for FaultyBackend {
+	fn append(&mut self, data: &TestElem, hashes: &[Hash]) -> Result<(), String> {
+		if let Some(n) = self.ctl.fail_append_after.get() {
+			if n == 0 {
+				self.ctl.fail_append_after.set(None);
+				return Err("injected: failed to append data to file".into());
+			}
+			self.ctl.fail_append_after.set(Some(n - 1));
+		}
+		self.inner.append(data, hashes)
+	}
+	fn append_pruned_subtree(&mut self, hash: Hash, pos0: u64) -> Result<(), String> {
+		self.inner.append_pruned_subtree(hash, pos0)
+	}
+	fn append_hash(&mut self, hash: Hash) -> Result<(), String> {
+		self.inner.append_hash(hash)
+	}
+	fn rewind(&mut self, pos1: u64, rm: &Bitmap) -> Result<(), String> {
+		if self.ctl.fail_next_rewind.get() {
+			self.ctl.fail_next_rewind.set(false);
+			return Err("injected: failed to rewind".into());
+		}
+		self.inner.rewind(pos1, rm)
+	}
+	fn get_hash(&self, pos0: u64) -> Option<Hash> {
+		self.inner.get_hash(pos0)
+	}
+	fn get_data(&self, pos0: u64) -> Option<TestElem> {
+		self.inner.get_data(pos0)
+	}
+	fn get_from_file(&self, pos0: u64) -> Option<Hash> {
+		self.inner.get_from_file(pos0)
+	}
+	fn get_peak_from_file(&self, pos0: u64) -> Option<Hash> {
+		self.inner.get_peak_from_file(pos0)
+	}
+	fn get_data_from_file(&self, pos0: u64) -> Option<TestElem> {
+		self.inner.get_data_from_file(pos0)
+	}
+	fn leaf_pos_iter(&self) -> Box<dyn Iterator<Item = u64> + '_> {
+		self.inner.leaf_pos_iter()
+	}
+	fn n_unpruned_leaves(&self) -> u64 {
+		self.inner.n_unpruned_leaves()
+	}
+	fn n_unpruned_leaves_to_index(&self, to_index: u64) -> u64 {
+		self.inner.n_unpruned_leaves_to_index(to_index)
+	}
+	fn leaf_idx_iter(&self, from_idx: u64) -> Box<dyn Iterator<Item = u64> + '_> {
+		self.inner.leaf_idx_iter(from_idx)
+	}
+	fn remove(&mut self, position: u64) -> Result<(), String> {
+		self.inner.remove(position)
+	}
+	fn remove_from_leaf_set(&mut self, pos0: u64) {
+		self.inner.remove_from_leaf_set(pos0)
+	}
+	fn release_files(&mut self) {
+		self.inner.release_files()
+	}
+	fn reset_prune_list(&mut self) {
+		self.inner.reset_prune_list()
+	}
+	fn snapshot(&self, header: &grin_core::core::BlockHeader) -> Result<(), String> {
+		self.inner.snapshot(header)
+	}
+	fn dump_stats(&self) {
+		self.inner.dump_stats()
+	}
+}
+
+/// C5: ONE long-lived PMMR object over a backend whose append / rewind fails now and then. An element whose push
+/// returned an error was not appended, a rewind that returned an error did not happen: after every step the size,
+/// peaks and root the object reports, and a Merkle proof of a random present leaf, are those of the MMR of the
+/// elements appended so far, and the following pushes land at the positions of that MMR.
+fn section_c5(run: &Run, seed: u64, n_programs: usize) {
+	let empty = Bitmap::new();
+	for pi in 0..n_programs {
+		let mut pr = Prng::new(seed ^ 0xC5C5 ^ ((pi as u64) << 24));
+		let ctl = std::rc::Rc::new(FaultCtl {
+			fail_append_after: std::cell::Cell::new(None),
+			fail_next_rewind: std::cell::Cell::new(false),
+		});
+		let mut be = FaultyBackend {
+			inner: VecBackend::new(),
+			ctl: ctl.clone(),
+		};
+		let mut cur: Vec<TestElem> = vec![];
+		let steps = 10 + pr.usize_below(30);
+		let mut trace: Vec<String> = vec![];
+		let mut pm = PMMR::new(&mut be);
+		let mut faults_seen = 0u32;
+		for _ in 0..steps {
+			let rewind = !cur.is_empty() && pr.chance(1, 4);
+			let inject = pr.chance(1, 3);
+			let mut what = "push";
+			if rewind {
+				what = "rewind";
+				let n = pr.usize_below(cur.len() + 1).max(1);
+				let target = RefMMR::from_elems(&cur[..n], false).size();
+				if inject {
+					ctl.fail_next_rewind.set(true);
+				}
+				match pm.rewind(target, &empty) {
+					Ok(()) => {
+						cur.truncate(n);
+						trace.push(format!("rewind to {} leaves: ok", n));
+					}
+					Err(_) if inject => {
+						faults_seen += 1;
+						what = "failed_rewind";
+						trace.push(format!("rewind to {} leaves: backend error (injected)", n));
+						run.count("C5.failed_rewinds", 1);
+					}
+					Err(e) => {
+						run.violation("section=C5;fn=PMMR::rewind;event=error_without_fault", &e, json!({"program": pi, "seed": seed, "steps": trace}));
+						return;
+					}
+				}
+				ctl.fail_next_rewind.set(false);
+			} else {
+				let k = 1 + pr.usize_below(5);
+				if inject {
+					ctl.fail_append_after.set(Some(pr.usize_below(k) as u32));
+				}
+				for i in 0..k {
+					let e = TestElem([pr.next_u32(), pr.next_u32(), pr.next_u32(), pr.next_u32()]);
+					let want_pos = pmmr::insertion_to_pmmr_index(cur.len() as u64);
+					let armed = ctl.fail_append_after.get() == Some(0);
+					match pm.push(&e) {
+						Ok(pos) => {
+							if pos != want_pos {
+								run.violation(
+									"section=C5;fn=PMMR::push;event=position_mismatch",
+									&format!("push #{} of the step returned position {}, leaf {} of an MMR sits at {}", i, pos, cur.len(), want_pos),
+									json!({"program": pi, "seed": seed, "steps": trace}),
+								);
+								return;
+							}
+							cur.push(e);
+						}
+						Err(_) if armed => {
+							faults_seen += 1;
+							what = "failed_push";
+							trace.push(format!("push #{} of {}: backend error (injected) with {} leaves", i, k, cur.len()));
+							run.count("C5.failed_pushes", 1);
+						}
+						Err(err) => {
+							run.violation("section=C5;fn=PMMR::push;event=error_without_fault", &err, json!({"program": pi, "seed": seed, "steps": trace}));
+							return;
+						}
+					}
+				}
+				ctl.fail_append_after.set(None);
+				trace.push(format!("pushed up to {} leaves", cur.len()));
+			}
+			// what the same object reports now
+			if cur.is_empty() {
+				if pm.unpruned_size() != 0 {
+					run.violation(
+						&format!("section=C5;after={};event=size_root_or_peaks_mismatch", what),
+						&format!("after {} the PMMR reports size {} although nothing was appended", what, pm.unpruned_size()),
+						json!({"program": pi, "seed": seed, "steps": trace}),
+					);
+					return;
+				}
+				continue;
+			}
+			let r = RefMMR::from_elems(&cur, false);
+			let size = pm.unpruned_size();
+			let got_root = pm.root();
+			let got_peaks = pm.peaks();
+			run.eval(&format!("C5:{}:{}", what, cur.len().min(40)), true);
+			run.count("C5.states_compared", 1);
+			if what.starts_with("failed") {
+				run.count("C5.states_compared_right_after_a_backend_error", 1);
+			}
+			let ref_peaks: Vec<Hash> = r.peak_hashes(&r.peaks_of_size(r.size()).unwrap_or_default());
+			let peaks_ok = got_peaks == ref_peaks;
+			if size != r.size() || got_root.as_ref().ok() != Some(&r.root()) || !peaks_ok {
+				run.violation(
+					&format!("section=C5;after={};event=size_root_or_peaks_mismatch", what),
+					&format!(
+						"after {} the PMMR reports size {} root {:?} and {} peaks; the MMR of the {} elements appended so far has size {} root {} and {} peaks",
+						what, size, got_root, got_peaks.len(), cur.len(), r.size(), r.root(), ref_peaks.len()
+					),
+					json!({"program": pi, "seed": seed, "steps": trace}),
+				);
+				return;
+			}
+			if !cur.is_empty() {
+				let li = pr.usize_below(cur.len());
+				let pos0 = pmmr::insertion_to_pmmr_index(li as u64);
+				match pm.merkle_proof(pos0) {
+					Ok(proof) if proof.verify(r.root(), &cur[li], pos0).is_ok() => run.count("C5.proofs_checked", 1),
+					other => {
+						run.violation(
+							&format!("section=C5;after={};fn=merkle_proof;event=honest_proof_fails", what),
+							&format!("leaf {} of {}: {:?}", li, cur.len(), other.map(|_| "proof does not verify")),
+							json!({"program": pi, "seed": seed, "steps": trace, "leaf": li}),
+						);
+						return;
+					}
+				}
+			}
+		}
+		if faults_seen > 0 {
+			run.count("C5.programs_with_backend_errors", 1);
+		}
+	}
+}
+
 /// C2: rewind of the mutable PMMR over VecBackend: from one base MMR to every
 /// position, then pushes on top; plus random push/rewind programs.
 fn section_c2(run: &Run, seed: u64, rw_leaves: usize, n_programs: usize, budget_s: f64) {
@@ -2713,6 +2938,7 @@ fn main() {
 	eprintln!("[C07] C1 done at {:.1}s", t0.elapsed().as_secs_f64());
 	section_c2(&run, seed, c2_leaves, c2_programs, cap(bud_c2));
 	section_c4(&run, seed, run.tier.pick(300, 3000));
+	section_c5(&run, seed, if san { 40 } else { run.tier.pick(400, 4000) });
 	eprintln!("[C07] C2 done at {:.1}s", t0.elapsed().as_secs_f64());
 	let mut targets: Vec<usize> = vec![
 		1usize << c3_hi_bits,
@@ -2791,6 +3017,11 @@ fn main() {
 	] {
 		run.require(&format!("rejections in class {}", c), run.counter(c), d_leaves as u64);
 	}
+	run.require(
+		"states of one long-lived PMMR compared right after an injected backend error (C5)",
+		run.counter("C5.states_compared_right_after_a_backend_error"),
+		if san { 50 } else { run.tier.pick(800, 8000) },
+	);
 	run.require(
 		"n_unpruned_leaves comparisons (file backend)",
 		run.counter("PMMR::n_unpruned_leaves"),
